@@ -163,7 +163,7 @@ def run_shard(spec, res):
                         pairs.append(((k1, rng.choice(['DL', 'DLR', 'ERR'])),
                                       (k2, rng.choice(['DL', 'DLR', 'ERR']))))
                 rng.shuffle(pairs)
-                jobs = pairs[:400]
+                jobs = pairs[:1500]
             for job in jobs:
                 prepare(name)
                 injs = [faults.Injector(k, kind, watch) for k, kind in job]
@@ -282,6 +282,21 @@ def run_shard(spec, res):
                             '%s (%s)' % (name, kind, k, skind, st, outcome),
                             wit)
                     continue
+                if len(job) > 1 and outcome == 'error-with-residue' and \
+                        injs[1].fired:
+                    # two faults in one request: is the residue nothing but
+                    # consumer records this request auto-created (they hold
+                    # no allocations), i.e. the second fault hit the removal
+                    # of what the first one made superfluous?  (D24)
+                    ca, cs = after.core(), start.core()
+                    extra = set(ca['consumers']) - set(cs['consumers'])
+                    held = {cc for (cc, _, _) in after.allocs}
+                    for cc in extra:
+                        ca['consumers'].pop(cc)
+                    if extra and not (extra & held) and ca == cs:
+                        outcome = 'auto-created-consumer-left-after-' \
+                                  'second-fault'
+                        where = where.split('|')[0]
                 res.violation(
                     'C17|%s|%s|%s' % (outcome, '+'.join(kd for _, kd in job),
                                       where),
